@@ -31,9 +31,9 @@ def build_cases(tier, seed):
             # request, but trips are handed out by the built-in dispatcher alone, so "at most one vehicle per request" applies
             ctrl = hostile_stack(p=0.3, builtin=True, kinds=["Idle", "DispatchStation", "ChargeStation", "ChargeBase", "Reposition", "ReserveBase", "ReserveBase", "DispatchBase"])
         opts = {}
-        if i % 8 == 2:
+        if i % 8 in (2, 6):
             prof["fleets"] = [2, 3][(i // 8) % 2]
-            opts = {"cosim_ops": {"every": 3, "kinds": ["change_request_membership"]}}
+            opts = {"cosim_ops": {"every": 2, "kinds": ["change_request_membership"]}}
         if i % 4 == 0:
             # a co-simulation client adds requests of no fleet between calls (built-in control: "at most one vehicle per request")
             prof["fleets"] = [2, 3][(i // 4) % 2]
@@ -52,8 +52,8 @@ main = main_with_sys(
     build_cases,
     "c17_assigned_requests",
     {
-        "quick": {"c17_assigned_requests": 3000, "c17_interrupted_dispatches": 200, "c17_out_of_energy_en_route": 10, "sys_transitions": 20000, "cosim_change_membership_of_assigned_request": 10, "c17_refused_instructions_en_route": 50},
-        "thorough": {"c17_assigned_requests": 60000, "c17_interrupted_dispatches": 4000, "c17_out_of_energy_en_route": 200, "sys_transitions": 500000, "cosim_change_membership_of_assigned_request": 100, "c17_refused_instructions_en_route": 500},
+        "quick": {"c17_assigned_requests": 3000, "c17_interrupted_dispatches": 200, "c17_out_of_energy_en_route": 10, "sys_transitions": 20000, "cosim_change_membership_of_assigned_request": 10, "cosim_waiting_request_opened_to_second_fleet": 50, "c17_refused_instructions_en_route": 50},
+        "thorough": {"c17_assigned_requests": 60000, "c17_interrupted_dispatches": 4000, "c17_out_of_energy_en_route": 200, "sys_transitions": 500000, "cosim_change_membership_of_assigned_request": 100, "cosim_waiting_request_opened_to_second_fleet": 500, "c17_refused_instructions_en_route": 500},
     },
     "journeys started with too little energy (matching thresholds lowered so the built-in dispatcher sends nearly empty vehicles), hostile re-dispatch / interruption / OutOfService instructions, cancellations while en route, interruption-only generators whose (mostly refused) instructions reach vehicles en route, a co-simulation client opening assigned requests to further fleets between calls; "
     "in every state each waiting request that records a vehicle must find it in DispatchTrip to that request (and under built-in control at most one vehicle per request); the systematic driver adds every instruction variant "
